@@ -4,6 +4,7 @@ package main
 import (
 	"math/rand"
 
+	"verifharness/ur"
 	"verifharness/vlib"
 )
 
@@ -41,6 +42,20 @@ func main() {
 		vlib.CorpusScenario("C13-c11", `{ as { ... @defer(label: "l") { s } id ... @defer(label: "l") { sn } plainn ... @defer(label: "m") { kid { id } } num } }`, nil),
 		vlib.CorpusScenario("C13-c5", `{ annsn { kidsnn { ... @defer { sn kidn { ... @defer { s } } } } } }`, nil),
 	}
+	// an object with a deferred fragment that is nulled by its OWN non-null field (no group may
+	// start, none may stay pending), in a single object, in list elements, under a non-null
+	// parent, and next to a failure inside the deferred group itself
+	own := func(id, q string, plan map[string]ur.Outcome) {
+		for _, sch := range []string{"", "lifo"} {
+			sc := vlib.CorpusScenario(id+sch, q, nil)
+			sc.Plan, sc.Sched = plan, sch
+			corpus = append(corpus, sc)
+		}
+	}
+	own("C13-own1", `{ a { id sn ... @defer { s } } s }`, map[string]ur.Outcome{"a.sn": {K: "err"}})
+	own("C13-own2", `{ as { sn ... @defer(label: "x") { s kid { id } } } }`, map[string]ur.Outcome{"as": {K: "list", N: 3}, "as.1.sn": {K: "err"}})
+	own("C13-own3", `{ a { kidn { sn ... @defer(label: "k") { s } } id } sn }`, map[string]ur.Outcome{"a.kidn.sn": {K: "null"}})
+	own("C13-own4", `{ asn { id ... @defer { sn kid { sn ... @defer { s } } } } }`, map[string]ur.Outcome{"asn": {K: "list", N: 2}, "asn.0.sn": {K: "err"}, "asn.1.kid.sn": {K: "panic"}})
 	vlib.ExecConformance(c, "C13", bins, vs, rand.New(rand.NewSource(vlib.Seed()+1300)), n,
 		vlib.ExecMode{Faults: true, Panics: true, Rogue: true, Sentinel: true, Defer: true, Scheds: true, PlansPer: 3,
 			Module: "GqlDeferTrace", Config: "GqlDeferTrace.cfg", Lines: vlib.DeferTraceLines,
